@@ -7,7 +7,7 @@ from harness import tlc, gen
 from harness.common import enc, enc_seq, enc_cseq, workdir, write_ndjson, Report
 
 NL = 4
-DT = 0.25
+DT = 0.3
 MC_CFG = """SPECIFICATION Spec
 CONSTANT MaxLen = %d
 CONSTANT NMax = %d
@@ -112,7 +112,7 @@ def build_traces(path, tier, seed):
         n = special[i % len(special)] if i % 2 == 0 else int(rng.integers(2, nmax))
         n = min(n, nmax)
         x, shape = gen.record(rng, n)
-        dt = [0.005, 0.01, 0.5, 2.0][i % 4]
+        dt = float(rng.choice([0.005, 0.01, 0.5, 2.0, 0.003, 0.0123, 0.4]))      # incl. sampling rates that are not whole Hz
         if i % 5 == 3:                      # integer-count record
             x = np.round(x / (np.max(np.abs(x)) + 1e-300) * 1000).astype(np.int64)
         vs = variants(x, dt)
@@ -146,6 +146,8 @@ def build_traces(path, tier, seed):
         f0 = float(rng.uniform(2.0 / (n * dt), 0.4 / dt))
         x = np.sin(2 * np.pi * f0 * t + rng.uniform(0, 2 * np.pi)) * rng.uniform(0.5, 3) + 0.05 * rng.standard_normal(n)
         x = x - np.mean(x)
+        if i % 4 == 3:
+            x = x + 5.0          # the mean dominates: the largest-amplitude bin is the zero-frequency bin (period 1/0)
         o = eqsig.AccSignal(x, dt)
         with warnings.catch_warnings():
             warnings.simplefilter("ignore")
